@@ -50,6 +50,16 @@ func (p *Program) inRepoType(t types.Type) bool {
 	return false
 }
 
+// opaqueStruct: a named struct type declared outside the repository (bytes.Buffer, sync.Mutex...): its fields are
+// never read by repository code; objects of it are known through ghost fields only.
+func (p *Program) opaqueStruct(t types.Type) bool {
+	if _, ok := t.Underlying().(*types.Struct); !ok {
+		return false
+	}
+	nt, ok := t.(*types.Named)
+	return ok && nt.Obj() != nil && nt.Obj().Pkg() != nil && !p.inRepoType(t)
+}
+
 func constArray(s *Sort, v *Term) *Term {
 	return mk("(as const "+s.Name+")", s, v)
 }
@@ -300,6 +310,12 @@ func (fc *FuncCtx) execInstr(fr *Frame, st *State, ins ssa.Instruction) {
 		in := And(Le(IntLit(0), iv.T), Lt(iv.T, SLen(sl)))
 		fc.addObl(fr, st, "index", fc.srcOf(x), in, x.Pos(), "index out of range")
 		st.assume(in)
+		if fc.p.opaqueStruct(elT) {
+			// array of opaque library structs (bytes.Buffer...): the element objects of the array object b are
+			// the objects b+1 .. b+cap (allocated as one block by make, see MakeSlice)
+			fr.regs[x] = Val{T: Add(Add(SBase(sl), IntLit(1)), Add(SOff(sl), iv.T))}
+			return
+		}
 		if sortOf(elT) == nil {
 			if flatStructFields(elT) != nil {
 				fr.regs[x] = Val{LV: &LVal{Kind: lvElemS, Slice: sl, Idx: iv.T, Typ: elT}}
@@ -345,6 +361,20 @@ func (fc *FuncCtx) execInstr(fr *Frame, st *State, ins ssa.Instruction) {
 		if s := sortOf(elT); s != nil {
 			h := fc.p.elemHeap(elT)
 			st.setH(h, Store(st.H(fc.p, h), ref, constArray(ArraySort(SInt, s), zeroOf(elT))))
+		} else if fc.p.opaqueStruct(elT) {
+			// one block of cap fresh element objects ref+1 .. ref+cap, each with the ghost fields of a zero value
+			st.alloc = Add(ref, cp)
+			for _, g := range fc.p.ghostZero[typeKey(elT)] {
+				h := ghostFieldHeap(fc.p, g[0], false)
+				var n int64
+				fmt.Sscan(g[1], &n)
+				oh := st.H(fc.p, h)
+				nh := Fresh(heapVarName(h)+".blk", oh.Sort)
+				fc.p.noteHeapVar(nh, h, st.alloc)
+				k := BVar("bk", SInt)
+				st.assume(Forall([]*Term{k}, Eq(Select(nh, k), Ite(And(Lt(ref, k), Le(k, Add(ref, cp))), IntLit(n), Select(oh, k))), []*Term{Select(nh, k)}))
+				st.setH(h, nh)
+			}
 		} else {
 			fc.zeroStructRow(st, ref, elT)
 		}
